@@ -36,6 +36,17 @@ def close(a, b, scale):
 
 def run_wellformed(c):
     model = c["model"]
+    dup = None
+    if c.get("dup"):
+        # a soft module may list overlapping rectangles, also the same rectangle more than once: every copy counts
+        cands = [k for k, m in enumerate(model["modules"]) if m["kind"] == "soft" and m["rects"]]
+        if cands:
+            model = copy.deepcopy(model)
+            m = model["modules"][cands[c["dup"][0] % len(cands)]]
+            r = list(m["rects"][c["dup"][1] % len(m["rects"])])
+            m["rects"].insert(c["dup"][2] % (len(m["rects"]) + 1), r)
+            m["flat"] = False
+            dup = m["name"]
     unit = model["unit"]
     doc = G.to_text(model) if c["form"] in ("text", "file") else G.to_tree(model)
     if c["form"] == "file":
@@ -142,7 +153,11 @@ def run_wellformed(c):
             wl = nl.wire_length
         except Exception as ex:
             raise Violation("wire_length raised %s: %s although every net member has a centre" % (type(ex).__name__, ex), "wire-length-raised")
-        if abs(mpmath.mpf(wl) - total) > mpmath.mpf(1e-9) * (abs(total) + mpmath.mpf(float(scale)) * mpmath.mpf(1e-3)):
+        # (rounding: every distance is computed from float centres, so each net member contributes up to a few ulps of its coordinates
+        # times the weight, also when all members coincide and the defined length is 0)
+        coord = max([abs(v) for p in centres.values() if p is not None for v in p] + [Fr(0)])
+        noise = mpmath.mpf(1e-13) * mpmath.mpf(float(coord)) * sum(mpmath.mpf(G.exp_weight(e)) * len(e["m"]) for e in model["nets"])
+        if abs(mpmath.mpf(wl) - total) > mpmath.mpf(1e-9) * (abs(total) + mpmath.mpf(float(scale)) * mpmath.mpf(1e-3)) + noise:
             raise Violation("wire_length = %r, definition gives %s for nets %s" % (wl, mpmath.nstr(total, 15), model["nets"]), "wire-length")
         cls.append("wire-length")
     multi = any(len(m["rects"]) >= 2 for m in mods)
@@ -153,6 +168,8 @@ def run_wellformed(c):
         cls.append("flat-rectangle")
     if any(m["kind"] == "soft" and m["rects"] and m["center"] is not None for m in mods):
         cls.append("centre-overridden-by-rectangles")
+    if dup:
+        cls.append("soft-module-lists-a-rectangle-twice")
     return dict(nt=multi and hyper, cls=cls)
 
 
@@ -229,8 +246,11 @@ def inject(doc, defect, pick):
         if rl and not isinstance(rl[0], list):
             rl = [rl]
         r = choose(rl)
-        variant = next(p) % 3
-        if variant == 0:
+        variant = next(p) % 4
+        if variant == 3:
+            # the same rectangle once more (written with other number spellings half of the time)
+            extra = [[float(v) if isinstance(v, int) and next(p) % 2 else v for v in r]]
+        elif variant == 0:
             # a rectangle sharing a whole quarter (>= one lattice cell) with r
             extra = [[r[0] + r[2] / 4, r[1] + r[3] / 4, r[2], r[3]]]
         else:
@@ -304,7 +324,8 @@ def run_illformed(c):
 
 @st.composite
 def well_s(draw):
-    return dict(model=draw(G.netlist_model(max_modules=6)), form=draw(st.sampled_from(["tree", "tree", "text", "file"])), twice=draw(st.booleans()))
+    return dict(model=draw(G.netlist_model(max_modules=6)), form=draw(st.sampled_from(["tree", "tree", "text", "file"])), twice=draw(st.booleans()),
+                dup=[draw(_i(0, 5)), draw(_i(0, 5)), draw(_i(0, 5))] if draw(_i(0, 3)) == 0 else None)
 
 
 @st.composite
@@ -316,6 +337,6 @@ def ill_s(draw):
 def subchecks():
     return [
         Sub("wellformed", run_wellformed, strategy=well_s(), n_quick=5000, n_thorough=120000, fuzz_thorough=2500,
-            required=("wire-length", "region-areas", "flat-rectangle", "centre-overridden-by-rectangles", "text", "tree", "file", "tree-loaded-twice")),
+            required=("wire-length", "region-areas", "flat-rectangle", "centre-overridden-by-rectangles", "text", "tree", "file", "tree-loaded-twice", "soft-module-lists-a-rectangle-twice")),
         Sub("illformed", run_illformed, strategy=ill_s(), n_quick=5000, n_thorough=120000, fuzz_thorough=2500, required=tuple(DEFECTS)),
     ]
